@@ -238,7 +238,9 @@ class SetEncoder(encoder.SequenceEncoder):
                 # wrap open type blob if needed
                 if namedType and namedType.openType:
                     wrapType = namedType.asn1Object
-                    if wrapType.tagSet and not wrapType.isSameTypeWith(comp):
+                    if wrapType.tagSet and not (
+                            getattr(comp, 'typeId', None) == wrapType.typeId and
+                            wrapType.isSameTypeWith(comp)):
                         chunk = encodeFun(chunk, wrapType, **options)
 
             substrate += chunk
